@@ -117,6 +117,7 @@ def run(pid, tier, seed, update_ledger=False):
     timed_out = []
     backends = {}
     unanalysable = []
+    unreachable_returns = []
     for fr in results:
         if fr.error:
             led_names = sorted(n for n in ledger.get(pid, {}).get(fr.qual, {}) if '/cover' not in n)
@@ -149,13 +150,22 @@ def run(pid, tier, seed, update_ledger=False):
                 continue
             errors.append('%s: zero obligations generated (vacuity guard)' % fr.qual)
         nd = 0
+        rc = [o for o in fr.obligations if o['kind'] == 'cover' and '/site[return ' in o['name']]
+        if rc and all(o['status'] == 'vacuous' for o in rc):
+            errors.append('%s: no return statement is reachable under the contract (assumptions contradictory)' % fr.qual)
         for i, o in enumerate(fr.obligations):
             solver_s += o['secs']
             if any(__import__('re').search(rx, o['name']) for rx in getattr(prop, 'IGNORE_OBLIGATIONS', ())):
                 continue        # a clause of a shared contract that belongs to another property (decided by that property's check)
             if o['kind'] == 'cover':
                 if o['status'] == 'vacuous':
-                    errors.append('%s: assumptions are contradictory (cover proved False)' % o['name'])
+                    if '/site[return ' in o['name']:
+                        # a return statement that cannot be reached under the contract's assumptions (dead code under the
+                        # validity precondition): its clauses hold vacuously; listed, and an error only if NO return
+                        # statement of the function is reachable (checked below)
+                        unreachable_returns.append('%s (line %s)' % (o['name'], o.get('lineno')))
+                    else:
+                        errors.append('%s: assumptions are contradictory (cover proved False)' % o['name'])
                 continue
             n_obl += 1
             if o.get('cvc5') is not None:
@@ -324,6 +334,7 @@ def run(pid, tier, seed, update_ledger=False):
     level = getattr(prop, 'LEVEL', 'proof')
     cov = dict(
         renamed_locals={q: dict(now=v[0], verified_as=v[1]) for q, v in getattr(driver, 'RENAMED', {}).items()},
+        unreachable_returns=unreachable_returns,
         obligations=n_obl, discharged=n_dis,
         checker_cmd='cd /verif && ./check %s --tier %s   (pyvc VC generator over %s; z3 %s, E-matching, per-obligation timeout %d ms)'
                     % (pid, tier, os.environ.get('HEPH_REPO', '/repo'), __import__('z3').get_version_string(), timeout_ms),
